@@ -710,7 +710,7 @@ def class_scenarios(rng, count):
 def iteration_scenarios(rng, count):
     out = []
     sources = ["vec0", "vec1", "vec3", "tuple0", "tuple2", "range-up", "range-down", "range-empty", "user", "user-early", "user-derived",
-               "iter-of-vec", "nested-vec", "user-derived-fresh", "user-derived-fresh"]
+               "iter-of-vec", "nested-vec", "user-derived-fresh", "user-derived-fresh", "user-resetting", "user-resetting", "next-only"]
     for k in range(count):
         b = Builder()
         # user-defined iterables
@@ -731,6 +731,21 @@ def iteration_scenarios(rng, count):
         b.class_("Bag", sup="Iter", ctor="new")
         b.method("iter", []); b.ret(inv(b.v("Count"), "upto", lit(3))); b.end()
         b.end()
+        # derives Iter; iter() REWINDS the cursor and returns the object itself: adapters must call iter() exactly once
+        b.class_("Rewind", sup="Iter", ctor="new")
+        b.method("make", [], "ctor"); b.expr(setf(b.v("self"), "i", lit(0))); b.expr(setf(b.v("self"), "rewinds", lit(0))); b.end()
+        b.method("iter", []); b.expr(setf(b.v("self"), "i", lit(0))); b.expr(setf(b.v("self"), "rewinds", bin_("+", get(b.v("self"), "rewinds"), lit(1)))); b.ret(b.v("self")); b.end()
+        b.method("next", [])
+        b.if_(bin_(">=", get(b.v("self"), "i"), lit(4))); b.ret(inv(b.v("StopIter"), "new")); b.end()
+        b.expr(setf(b.v("self"), "i", bin_("+", get(b.v("self"), "i"), lit(1)))); b.ret(get(b.v("self"), "i")); b.end()
+        b.end()
+        # has next() but no iter(): usable only where the language promises not to call iter()
+        b.class_("NextOnly", sup="Iter", ctor="new")
+        b.method("make", [], "ctor"); b.expr(setf(b.v("self"), "i", lit(0))); b.end()
+        b.method("next", [])
+        b.if_(bin_(">=", get(b.v("self"), "i"), lit(3))); b.ret(inv(b.v("StopIter"), "new")); b.end()
+        b.expr(setf(b.v("self"), "i", bin_("+", get(b.v("self"), "i"), lit(1)))); b.ret(get(b.v("self"), "i")); b.end()
+        b.end()
         wrap_fn = rng.random() < 0.5
         if wrap_fn:
             b.fn("run", [])
@@ -750,17 +765,29 @@ def iteration_scenarios(rng, count):
             if src == "user-derived": return inv(b.v("Evens"), "start")
             if src == "user-derived-fresh": return inv(b.v("Bag"), "new")
             if src == "iter-of-vec": return inv(vec(lit(5), lit(6)), "iter")
+            if src == "user-resetting": return inv(b.v("Rewind"), "make")
+            if src == "next-only": return inv(b.v("NextOnly"), "make")
             return vec(vec(lit(1)), vec(), vec(lit(2), lit(3)))
         rng_ = lambda a, c: {"k": "range", "l": lit(a), "r": lit(c)}
         b.var("src", source())
-        numeric = src in ("vec3", "range-up", "range-down", "range-empty", "user", "user-early", "user-derived", "iter-of-vec", "user-derived-fresh")
+        numeric = src in ("vec3", "range-up", "range-down", "range-empty", "user", "user-early", "user-derived", "iter-of-vec", "user-derived-fresh",
+                          "user-resetting", "next-only")
         chainable = src not in ("user", "user-early")        # plain user classes do not derive Iter
         nchain = rng.randint(0, 3) if chainable else 0
         e = b.v("src")
-        if nchain and src not in ("user-derived", "iter-of-vec", "user-derived-fresh"):
+        if src == "next-only":
+            # wrapped directly by the adapter classes (Iter.map / Iter.filter would call iter() on it, which it inherits from Iter)
+            nchain = max(nchain, 1)
+        if nchain and src not in ("user-derived", "iter-of-vec", "user-derived-fresh", "user-resetting", "next-only"):
             e = inv(e, "iter")
         for c in range(nchain):
-            which = rng.choice(["map", "filter", "map-id"])
+            which = rng.choice(["map", "filter", "map-id", "filter"])
+            if src == "next-only" and c == 0:
+                if which == "filter":
+                    e = inv(b.v("FilterIter"), "new", e, b.lam(["x"], lambda: bin_("!=", b.v("x"), lit(2))))
+                else:
+                    e = inv(b.v("MapIter"), "new", e, b.lam(["x"], lambda: bin_("*", b.v("x"), lit(2))))
+                continue
             if which == "map":
                 e = inv(e, "map", b.lam(["x"], lambda: (bin_("*", b.v("x"), lit(2)) if numeric else tup(b.v("x"), lit(c)))))
             elif which == "map-id":
@@ -769,7 +796,7 @@ def iteration_scenarios(rng, count):
                 e = inv(e, "filter", b.lam(["x"], lambda: (bin_("!=", b.v("x"), lit(2 + 2 * c)) if numeric else lit(c % 2 == 0))))
         consumer = rng.choice(["for", "for", "for-break", "for-continue", "for-return", "collect", "reduce", "nested", "interleaved", "mutate", "manual-next",
                                "range-held"])
-        if consumer in ("collect", "reduce") and not (nchain or src in ("user-derived", "iter-of-vec", "user-derived-fresh")):
+        if consumer in ("collect", "reduce") and not (nchain or src in ("user-derived", "iter-of-vec", "user-derived-fresh", "user-resetting")):
             consumer = "for"
         if consumer == "for":
             b.for_("v", e); b.print(b.v("v")); b.end()
@@ -788,14 +815,28 @@ def iteration_scenarios(rng, count):
         elif consumer == "interleaved":
             b.var("it", inv(e, "iter")); b.for_("a", b.v("it")); b.for_("c", b.v("it")); b.print(tup(b.v("a"), b.v("c"))); b.end(); b.end(); b.print(inv(b.v("it"), "next"))
         elif consumer == "mutate":
-            b.var("w", vec(lit(1), lit(2), lit(3))); b.var("n", lit(0)); b.for_("v", b.v("w")); b.expr(b.assign("n", bin_("+", b.v("n"), lit(1))))
-            b.if_(bin_("==", b.v("n"), lit(1)))
-            if rng.random() < 0.5:
-                b.expr(inv(b.v("w"), "push", lit(9)))
+            # the vector changes length while it is being iterated: pops that move the length below, onto and past the cursor
+            n0 = rng.randint(1, 5)
+            b.var("w", vec(*[lit(i + 1) for i in range(n0)])); b.var("n", lit(0)); b.var("guard", lit(0))
+            mode = rng.choice(["push-once", "pop-once", "pop-each", "pop-two-once", "pop-three-once", "push-each-bounded", "pop-at-last", "clear-by-pops"])
+            at = rng.randint(1, n0)
+            b.for_("v", b.v("w")); b.expr(b.assign("n", bin_("+", b.v("n"), lit(1))))
+            if mode in ("push-once", "pop-once", "pop-two-once", "pop-three-once", "clear-by-pops"):
+                b.if_(bin_("==", b.v("n"), lit(at)))
+                if mode == "push-once":
+                    b.expr(inv(b.v("w"), "push", lit(9)))
+                else:
+                    npop = {"pop-once": 1, "pop-two-once": 2, "pop-three-once": 3, "clear-by-pops": n0}[mode]
+                    for _ in range(npop):
+                        b.if_(bin_(">", inv(b.v("w"), "len"), lit(0))); b.expr(inv(b.v("w"), "pop")); b.end()
+                b.end()
+            elif mode == "pop-each":
+                b.if_(bin_(">", inv(b.v("w"), "len"), lit(0))); b.expr(inv(b.v("w"), "pop")); b.end()
+            elif mode == "pop-at-last":
+                b.if_(bin_("==", b.v("n"), lit(n0))); b.expr(inv(b.v("w"), "pop")); b.end()
             else:
-                b.expr(inv(b.v("w"), "pop"))
-            b.end()
-            b.print(b.v("v")); b.end(); b.print(b.v("w"))
+                b.if_(bin_("<", b.v("n"), lit(4))); b.expr(inv(b.v("w"), "push", bin_("+", b.v("n"), lit(10)))); b.end()
+            b.print(b.v("v")); b.end(); b.print(tup(b.v("w"), b.v("n")))
         elif consumer == "range-held":
             # a range value stays what it was, however many other ranges are created meanwhile (the VM caches 8)
             b.var("held", rng_(1, 3)); b.var("heldit", inv(b.v("held"), "iter"))
